@@ -487,12 +487,15 @@ CORPUS_CLEAN = [
     [(0.0, 1.0), (0.0, 0.0)], [(1.0, 1.0), (3.0, 0.0)], [], [(2.0, 1.0)],
     [(3.0, 3.0), (3.0, 2.0), (3.0, 1.0)],
     [(10.0, 3.0), (10.0, 2.0), (4.0, 1.0), (4.0, 0.0), (4.0, -1.0)],
+    [(64000.25, 310.0), (64000.0, 300.0), (64000.0, 40.0)],              # relative band: raises IndexError (open finding)
 ]
 CLEAN_KIND = {1: ("clean-subsequence", "kept points are not an in-order subsequence of the curve"),
               2: ("clean-trims-nonflat-point", "an end point whose abscissa differs by more than 3*tol from the first/last kept one was trimmed"),
               3: ("clean-interior-deviation", "a single removed point deviates by more than tol from the chord of its kept neighbours"),
               4: ("clean-variance-early-return", "nothing is returned although the abscissas spread by more than 2*tol (variance < tol early return)"),
               5: ("clean-ends-relative-tolerance", "end trimming uses numpy's relative tolerance (1e-5*|x|): a non-flat end point is dropped"),
+              7: ("clean-ends-relative-tolerance", "clean_composite_curve raises IndexError: every abscissa lies within numpy's relative band "
+                  "tol+1e-5*|x0| of the first one while the variance test passed (np.flatnonzero(mask)[0] on an empty array)"),
               6: ("clean-curve-collinearity-drift", "collinearity is tested against the original neighbours: consecutive removals drift by more than tol")}
 
 
